@@ -21,6 +21,7 @@ import (
 type PropCfg struct {
 	Pkg      string   `json:"pkg"`      // package dir of the replay harness ("." or "stanza")
 	Funcs    []string `json:"funcs"`    // functions under contract in this property's closure
+	Deps     []string `json:"deps"`     // functions whose whole contract (all labels) is re-verified here because this property's proofs rely on it
 	Lemmas   []string `json:"lemmas"`   // lemma labels
 	Replay   string   `json:"replay"`   // replay harness name (file replay/<name>_replay_test.go)
 	Level    string   `json:"level"`    // proof | other
@@ -238,6 +239,11 @@ func cmdCheck(args []string) int {
 		u    *vc.Unit
 		err  error
 	}
+	isDep := map[string]bool{}
+	for _, d := range cfg.Deps {
+		isDep[d] = true
+	}
+	cfg.Funcs = append(cfg.Funcs, cfg.Deps...)
 	units := make([]unitRes, len(cfg.Funcs)+len(cfg.Lemmas))
 	var wg sync.WaitGroup
 	for i, k := range cfg.Funcs {
@@ -277,6 +283,7 @@ func cmdCheck(args []string) int {
 	var obls []*vc.Obligation
 	var genFailures []string
 	trusted := map[string]bool{}
+	repoCallees := map[string]bool{}
 	unspec := map[string]bool{}
 	notes := map[string]bool{}
 	for _, ur := range units {
@@ -288,9 +295,12 @@ func cmdCheck(args []string) int {
 			genFailures = append(genFailures, "unsupported: "+s)
 		}
 		for _, o := range ur.u.Obls {
-			if belongs(o.Label, *prop) {
+			if belongs(o.Label, *prop) || isDep[ur.key] {
 				obls = append(obls, o)
 			}
+		}
+		for _, c := range ur.u.RepoCallees() {
+			repoCallees[c] = true
 		}
 		for _, t := range ur.u.TrustedUsed() {
 			trusted[t] = true
@@ -313,6 +323,7 @@ func cmdCheck(args []string) int {
 	nObl, nDis := 0, 0
 	var failed []vc.Result
 	var engineErrs []string
+	var solverErrs []string
 	solverTime := map[string]float64{}
 	bySolver := map[string]int{}
 	names := map[string]bool{}
@@ -348,7 +359,8 @@ func cmdCheck(args []string) int {
 			rep.Status = "discharged"
 		} else {
 			if r.Status == "error" {
-				engineErrs = append(engineErrs, "solver error on "+r.Obl.Name+": "+firstLines(r.Output, 3))
+				// counts as an undischarged obligation; shown so that an encoding problem is visible
+				solverErrs = append(solverErrs, "solver error on "+r.Obl.Name+": "+firstLines(r.Output, 3))
 			}
 			failed = append(failed, r)
 		}
@@ -453,6 +465,9 @@ func cmdCheck(args []string) int {
 	for _, e := range engineErrs {
 		fmt.Println("ENGINE-ERROR", e)
 	}
+	for _, e := range solverErrs {
+		fmt.Println("ENGINE-NOTE", e)
+	}
 	for _, l := range lines {
 		fmt.Println(l)
 	}
@@ -492,7 +507,44 @@ func cmdCheck(args []string) int {
 		for _, t := range sortedKeys(unspec) {
 			tb = append(tb, "UNSPECIFIED "+t)
 		}
+		// contracts of /repo code assumed at call sites: where is each one verified?
+		var assumedRepo []string
+		for _, c := range sortedKeys(repoCallees) {
+			where := ""
+			switch {
+			case strings.HasPrefix(c, "field:") || strings.HasPrefix(c, "type:") || strings.HasPrefix(c, "param:"):
+				where = "user callback contract (A-CB, assumed)"
+			case p.Funcs[c] == nil:
+				where = "interface contract (callers are verified against it; implementations in /repo carry the obligation)"
+			default:
+				for _, f := range cfg.Funcs {
+					if f == c {
+						where = "verified in this check"
+					}
+				}
+				if where == "" {
+					var ps []string
+					for pid, pc := range cfgs {
+						for _, f := range append(append([]string{}, pc.Funcs...), pc.Deps...) {
+							if f == c {
+								ps = append(ps, pid)
+							}
+						}
+					}
+					sort.Strings(ps)
+					if len(ps) > 0 {
+						where = "verified by the check(s) of " + strings.Join(ps, ", ")
+					} else if fc := p.CS.Funcs[c]; fc != nil && fc.Bound {
+						where = "ASSUMED: bounded stand-in only"
+					} else {
+						where = "ASSUMED: not verified by any registered check"
+					}
+				}
+			}
+			assumedRepo = append(assumedRepo, c+": "+where)
+		}
 		cov := map[string]interface{}{
+			"repo_contracts_used_at_call_sites": assumedRepo,
 			"obligations": nObl, "discharged": nDis,
 			"checker_cmd":  fmt.Sprintf("%s/bin/check %s %s", verifDir, *prop, *tier),
 			"trusted_base": tb,
